@@ -321,6 +321,23 @@ func c17Decoded(w *vx.W) {
 			vals = append(vals, uint32(int32(c+d)))
 		}
 	}
+	// each boundary value also as the first and only record of a fresh decode (a decoder starts from zero state)
+	if w.Shard == 0 {
+		firsts := append([]uint32{}, vals[len(vals)-49:]...)
+		firsts = append(firsts, 0, 1, 2, 0xFFFFFFFF, 0xFFFFFFFE, 0x0FFFFFFF, 0x10000000, 0x10000001, 0x80000000, 0x7FFFFFFF)
+		for k := uint32(0); k < 1<<16; k += 251 {
+			firsts = append(firsts, k<<16, k<<16|0xFFFF, k)
+		}
+		for _, v := range firsts {
+			for _, big := range []bool{false, true} {
+				w.Eval(3)
+				w.Fam("decoded-values-first-record", 3)
+				if msg := c17DecodedOne(v, big); msg != "" {
+					w.Violation("decoded/first-record", "as the first record of a decode: "+msg, c17Replay{"decoded", int64(v)})
+				}
+			}
+		}
+	}
 	const per = 2048
 	nfiles := (len(vals) + per - 1) / per
 	for fi := 0; fi < nfiles; fi++ {
